@@ -311,6 +311,79 @@ theorem secondItems_boundary_eq (n L now0 : Nat) (hn : 0 < n) (hL : 0 < L) (h0 :
   exact ⟨heq, fun p hp => items_same_nonzero items ref (secondItems_keys_nodup _ now lo hi)
     (refItems_keys_nodup L _ _) heq p hp⟩
 
+/-- **items, exact form for every reachable array and every read time**: second by second, the reported payload is
+the reference over the array-wide aligned window (last `n` buckets ∩ caller's predicate) **plus**, inside
+`BoundaryRegion` (read exactly on a bucket boundary, no call in the current bucket yet), the contribution
+`boundaryItem` of the one bucket that began exactly an array interval ago — nothing else, ever. -/
+theorem secondItems_exact (n L now0 : Nat) (hn : 0 < n) (hL : 0 < L) (h0 : 0 < now0) (ops : List (Op Bucket))
+    (mono : MonoOps now0 ops) (now : Nat) (hnow : ∀ o ∈ ops, o.time ≤ now) (hnow0 : now0 ≤ now) (lo hi sec : Nat) :
+    itemAt (secondItems (runOps (mk n L now0) ops) now lo hi) sec =
+      itemAt (refItems L (addsOf ops) (itemStarts L n now lo hi)) sec +
+        (if BoundaryRegion L now0 ops now then boundaryItem L (addsOf ops) n now lo hi sec else 0) := by
+  have r := reach_ops n L now0 hn hL h0 ops mono now hnow hnow0
+  have hpos := Nat.lt_of_lt_of_le h0 hnow0
+  by_cases hr : BoundaryRegion L now0 ops now
+  · rw [if_pos hr, items_of_reach_boundary _ n L _ _ now r hpos lo hi hr.1 hr.2 sec, itemAt_refItems_succ]
+  · rw [if_neg hr, add_zero]
+    apply items_of_reach _ n L _ _ now r hpos lo hi
+    by_cases hb : now % L = 0
+    · right
+      by_contra hc
+      exact hr ⟨hb, hc⟩
+    · exact Or.inl hb
+
+/-- **items equal the aligned-window reference exactly outside the known-finding region**: the per-second items agree
+with the reference (as finite maps, hence in the driver's canonical form) **iff it is not the case that** the read is
+in `BoundaryRegion`, the bucket `cbs now − n·L` exists and satisfies the caller's predicate, and adding its recordings
+changes the payload of its second.  (The last clause cannot be simplified to "has recordings": min-RT headroom and peak
+concurrency combine by `max`, so a boundary bucket dominated by its second's other buckets is invisible.) -/
+theorem secondItems_eq_ref_iff (n L now0 : Nat) (hn : 0 < n) (hL : 0 < L) (h0 : 0 < now0) (ops : List (Op Bucket))
+    (mono : MonoOps now0 ops) (now : Nat) (hnow : ∀ o ∈ ops, o.time ≤ now) (hnow0 : now0 ≤ now) (lo hi : Nat) :
+    (∀ sec, itemAt (secondItems (runOps (mk n L now0) ops) now lo hi) sec =
+        itemAt (refItems L (addsOf ops) (itemStarts L n now lo hi)) sec) ↔
+    ¬ (BoundaryRegion L now0 ops now ∧ n * L ≤ cbs L now ∧ lo ≤ cbs L now - n * L ∧ cbs L now - n * L ≤ hi ∧
+        itemAt (refItems L (addsOf ops) (itemStarts L n now lo hi)) ((cbs L now - n * L) - (cbs L now - n * L) % 1000) +
+            refW L (addsOf ops) (cbs L now - n * L) (cbs L now - n * L) ≠
+          itemAt (refItems L (addsOf ops) (itemStarts L n now lo hi)) ((cbs L now - n * L) - (cbs L now - n * L) % 1000)) := by
+  have hex := secondItems_exact n L now0 hn hL h0 ops mono now hnow hnow0 lo hi
+  constructor
+  · rintro heq ⟨hr, h1, h2, h3, hne⟩
+    have := hex ((cbs L now - n * L) - (cbs L now - n * L) % 1000)
+    rw [heq, if_pos hr] at this
+    unfold boundaryItem at this
+    rw [if_pos ⟨h1, h2, h3, rfl⟩] at this
+    exact hne this.symm
+  · intro hnot sec
+    rw [hex sec]
+    by_cases hr : BoundaryRegion L now0 ops now
+    · rw [if_pos hr]
+      unfold boundaryItem
+      split_ifs with hc
+      · obtain ⟨h1, h2, h3, rfl⟩ := hc
+        by_contra hne
+        exact hnot ⟨hr, h1, h2, h3, hne⟩
+      · rw [add_zero]
+    · rw [if_neg hr, add_zero]
+
+/-- the region is inhabited and the deviation is real: on the known-finding replay (array 20×1 ms created at 1, 3 passes
+at 618, item read at 638) the items differ from the aligned-window reference at second 0 -/
+theorem secondItems_region_witness :
+    BoundaryRegion 1 1 [Op.add 618 (evBucket .pass 3)] 638 ∧
+    ¬ (∀ sec, itemAt (secondItems (runOps (mk 20 1 1) [Op.add 618 (evBucket .pass 3)]) 638 0 100000) sec =
+        itemAt (refItems 1 (addsOf [Op.add 618 (evBucket .pass 3)]) (itemStarts 1 20 638 0 100000)) sec) := by
+  refine ⟨by decide, fun h => ?_⟩
+  have h0 := h 0
+  revert h0
+  decide
+
+/-- outside the region (same replay, but the current bucket has been touched by a later recording): equality -/
+example : ∀ sec, itemAt (secondItems (runOps (mk 20 1 1)
+      [Op.add 618 (evBucket .pass 3), Op.add 638 (evBucket .block 1)]) 638 0 100000) sec =
+    itemAt (refItems 1 (addsOf [Op.add 618 (evBucket .pass 3), Op.add 638 (evBucket .block 1)])
+      (itemStarts 1 20 638 0 100000)) sec :=
+  (secondItems_eq_ref_partial 20 1 1 (by decide) (by decide) (by decide) _ (by simp [MonoOps, Op.time]) 638
+    (by simp [Op.time]) (by decide) 0 100000 (Or.inr (Or.inr ⟨_, List.mem_cons_of_mem _ (List.mem_cons_self ..), rfl⟩))).1
+
 /-- `itemStarts L cnt now lo hi` is exactly the set of aligned bucket starts among the last `cnt` buckets ending at
 the current one that satisfy the caller's predicate, each once -/
 theorem itemStarts_spec (L cnt now lo hi : Nat) (hL : 0 < L) :
@@ -319,6 +392,87 @@ theorem itemStarts_spec (L cnt now lo hi : Nat) (hL : 0 < L) :
       (L ∣ b ∧ b ≤ cbs L now ∧ cbs L now < b + cnt * L) ∧ lo ≤ b ∧ b ≤ hi := by
   refine ⟨(nodup_lastStarts L _ _ hL).filter _, fun b => ?_⟩
   simp only [itemStarts, List.mem_filter, decide_eq_true_eq, mem_lastStarts L cnt _ b hL (cbs_dvd L now)]
+
+/-! ### idle gaps of any length -/
+
+/-- **after an idle gap every getter returns its empty-window value**: if every recording is at least `g` ms old for
+some `g` longer than the array interval `n·L` — **for every `g ∈ ℕ`**, 2^32 ms and its multiples included; refreshes and
+reads may have happened in between — then the view payload is empty (`GetSum = 0`, hence QPS 0; `MinRT` = 60000 = "no
+data"; `MaxConcurrency = 0`; `GetMaxOfSingleBucket = 0`; node `AvgRT = 0`), the array-level reads are empty (`Count = 0`,
+`MinRt = 60000`, `MaxConcurrency = 0`, every bucket `Values(now)` returns is untouched) and every per-second item is
+all-zero — even inside the boundary region of the known finding. -/
+theorem idle_gap_empty (n L now0 : Nat) (hn : 0 < n) (hL : 0 < L) (h0 : 0 < now0) (ops : List (Op Bucket))
+    (mono : MonoOps now0 ops) (now : Nat) (hnow : ∀ o ∈ ops, o.time ≤ now) (hnow0 : now0 ≤ now)
+    (g : Nat) (hg : n * L < g) (hidle : ∀ e ∈ addsOf ops, e.1 + g ≤ now)
+    (Iv : Nat) (hIv : Iv ≤ n * L) (lo hi : Nat) :
+    let a := runOps (mk n L now0) ops
+    viewSum a Iv now = 0 ∧ (∀ ev, vSum a Iv now ev = 0) ∧ vMinRt a Iv now = maxRt ∧ vMaxConc a Iv now = 0 ∧
+    (∀ ev, vMaxBucket a Iv now ev = 0) ∧ nodeAvgRt (viewSum a Iv now) = 0 ∧
+    (∀ ev, (aCount a now ev).2 = 0) ∧ (aMinRt a now).2 = maxRt ∧ (aMaxConc a now).2 = 0 ∧
+    (∀ s ∈ (aValues a now).2, s.val = 0) ∧ (∀ p ∈ secondItems a now lo hi, p.2 = 0) := by
+  intro a
+  have hold := idle_lt_window n L now g hL (addsOf ops) hg hidle
+  -- any window starting inside the array-wide aligned window is empty
+  have hz : ∀ lo' hi', cbs L now + L - n * L ≤ lo' → refW L (addsOf ops) lo' hi' = 0 := fun lo' hi' hlo =>
+    refW_eq_zero_of_lt L _ lo' hi' (fun e he => Nat.lt_of_lt_of_le (hold e he).1 hlo)
+  have hv : viewSum a Iv now = 0 := by
+    rw [ops_viewSum_eq_ref n L now0 hn hL h0 ops mono now hnow hnow0 Iv hIv]
+    exact hz _ _ (by omega)
+  have htot : refW L (addsOf ops) (cbs L now + L - n * L) (cbs L now) = 0 := hz _ _ (le_refl _)
+  refine ⟨hv, fun ev => by unfold vSum; rw [hv]; exact zero_get ev, by unfold vMinRt; rw [hv]; decide,
+    by unfold vMaxConc; rw [hv]; rfl, ?_, by rw [hv]; rfl, ?_, ?_, ?_, ?_, ?_⟩
+  · intro ev
+    rw [maxBucket_eq_ref n L now0 hn hL h0 ops mono now hnow hnow0 Iv hIv ev]
+    apply foldl_max_zero
+    intro x hx
+    obtain ⟨b, hb, rfl⟩ := List.mem_map.mp hx
+    obtain ⟨_, hlo, _⟩ := (mem_viewStarts L Iv now b hL).mp hb
+    rw [hz b b (by omega)]
+    exact zero_get ev
+  · intro ev
+    rw [ops_count_eq_ref n L now0 hn hL h0 ops mono now hnow hnow0 ev, htot]
+    exact zero_get ev
+  · rw [(ops_array_minRt_maxConc_eq_ref n L now0 hn hL h0 ops mono now hnow hnow0).1, htot]; decide
+  · rw [(ops_array_minRt_maxConc_eq_ref n L now0 hn hL h0 ops mono now hnow hnow0).2, htot]; rfl
+  · intro s hs
+    obtain ⟨_, hlo, _, hval⟩ := (ops_values_eq_ref n L now0 hn hL h0 ops mono now hnow hnow0).2.1 s hs
+    rw [hval]
+    exact hz _ _ hlo
+  · intro p hp
+    rw [← itemAt_of_mem _ (secondItems_keys_nodup a now lo hi) p hp,
+      secondItems_exact n L now0 hn hL h0 ops mono now hnow hnow0 lo hi p.1, itemAt_refItems]
+    have h1 : ((((itemStarts L n now lo hi).filter fun b => b - b % 1000 = p.1).map
+        fun b => refW L (addsOf ops) b b).sum) = 0 := by
+      apply sum_map_zero
+      intro b hb
+      obtain ⟨⟨hal, hle, hcnt⟩, _⟩ := ((itemStarts_spec L n now lo hi hL).2 b).mp (List.mem_filter.mp hb).1
+      have hstep := aligned_lt_step L _ _ (cbs_dvd L now) (Nat.dvd_add hal (Dvd.intro_left _ rfl)) hcnt
+      exact hz b b (by omega)
+    rw [h1, zero_add]
+    split_ifs with hr
+    · unfold boundaryItem
+      split_ifs with hc
+      · apply refW_eq_zero_of_lt
+        intro e he
+        have h2 := (hold e he).2
+        have h3 := cbs_le L e.1
+        have hcn : cbs L now = now := by unfold cbs; have := hr.1; omega
+        omega
+      · rfl
+    · rfl
+
+/-- **no recording is ever dropped along the driver's run** (the hypothesis `Inv` of `add_never_dropped`
+discharged over histories): after any time-monotone sequence of recordings and refreshes, a recording at any
+`t` not before the last call finds its bucket. -/
+theorem ops_add_never_dropped (n L now0 : Nat) (hn : 0 < n) (hL : 0 < L) (h0 : 0 < now0) (ops : List (Op Bucket))
+    (mono : MonoOps now0 ops) (t : Nat) (ht : ∀ o ∈ ops, o.time ≤ t) (ht0 : now0 ≤ t) (x : Bucket) :
+    (addAt (runOps (mk n L now0) ops) t x).2 = true := by
+  have r := reach_ops n L now0 hn hL h0 ops mono t ht ht0
+  obtain ⟨t0, inv⟩ := r.inv
+  have hne : t ≠ 0 := Nat.ne_of_gt (Nat.lt_of_lt_of_le h0 ht0)
+  unfold addAt
+  rw [if_neg hne]
+  exact add_never_dropped _ _ t0 _ t x inv r.le
 
 /-- the window payload's counters are plain sums, its `mc` a maximum and its `minRt` a minimum capped at 60000:
     what "computed from the multiset of recorded events" means for each getter -/
